@@ -205,7 +205,13 @@ pub fn run(a: &Args) {
             ("9223372036854775807 + 1", None, true), ("9223372036854775807 - 1 + 1", Some(i64::MAX), false), ("4611686018427387904 * 2", None, true), ("3037000500 * 3037000500", None, true), ("3037000499 * 3037000499", Some(3037000499i64 * 3037000499), false),
             ("to_int(9300000000000000000.0)", None, true), ("to_int(0-9300000000000000000.0)", None, true), ("to_int(4611686018427387904.0)", Some(1i64 << 62), false),
             ("fact(20)", Some(2432902008176640000), false), ("fact(21)", None, true), ("(0-9223372036854775807-1) / (0-1)", None, true), ("(0-9223372036854775807-1) % (0-1)", None, true), ("-(0-9223372036854775807-1)", None, true), ("abs(0-9223372036854775807-1)", None, true),
-            ("1 << 62", Some(1i64 << 62), false), ("1 << 64", None, true), ("1 >> 64", None, true), ("(0-8) >> 1", Some(-4), false), ("4294967296 * 4294967296", None, true), ("2147483648 * 2", Some(4294967296), false), ("2147483647 + 1", Some(2147483648), false) ];
+            ("1 << 62", Some(1i64 << 62), false), ("1 << 64", None, true), ("1 >> 64", None, true), ("(0-8) >> 1", Some(-4), false),
+            ("1 << 4294967297", None, true), ("3 << 4294967296", None, true), ("1 >> 4294967297", None, true), ("8 >> 4294967296", None, true), ("1 << 9223372036854775807", None, true),
+            // integers are ordered exactly, also where neighbouring integers have the same float image
+            ("1 if 9007199254740992 < 9007199254740993 else 0", Some(1), false), ("1 if 9007199254740993 > 9007199254740992 else 0", Some(1), false), ("1 if 9223372036854775807 > 9223372036854775806 else 0", Some(1), false),
+            ("1 if 9007199254740993 <= 9007199254740992 else 0", Some(0), false), ("1 if 9007199254740992 >= 9007199254740993 else 0", Some(0), false), ("1 if 9007199254740992 == 9007199254740993 else 0", Some(0), false),
+            ("1 if 9007199254740992 != 9007199254740993 else 0", Some(1), false), ("1 if (0-9007199254740993) < (0-9007199254740992) else 0", Some(1), false),
+            ("9007199254740993 max 9007199254740992", Some(9007199254740993), false), ("9007199254740993 min 9007199254740992", Some(9007199254740992), false), ("4294967296 * 4294967296", None, true), ("2147483648 * 2", Some(4294967296), false), ("2147483647 + 1", Some(2147483648), false) ];
         for (text, want, err) in spot {
             let got = std::panic::catch_unwind(|| parse_val::<i64, f64>(text).and_then(|e| e.eval(&[])));
             let (ok, onote) = match &got { Err(_) => (false, "panicked".to_string()),
@@ -214,6 +220,15 @@ pub fn run(a: &Args) {
                 Ok(Ok(other)) => (false, format!("{other:?}, expected {}", if err { "an error value".to_string() } else { format!("{want:?}") })) };
             other_apps += 1;
             if !ok { cases.push(C { g: "VU [] VNone None".to_string(), note: format!("[Val<i64,f64>] {text} = {:?}", got.as_ref().map(|r| r.as_ref().map(|v| format!("{v:?}")).map_err(|e| e.to_string())).unwrap_or(Ok("PANIC".into()))), family: "other-instantiations", ok: Some(false), onote, answer: "wrong".into() }); }
+        }
+    }
+    {
+        use exmex::{parse_val, Express};
+        for (text, want) in [("1 if 2147483647 > 2147483646 else 0", 1i32), ("1 if 16777216 < 16777217 else 0", 1), ("1 if 16777217 <= 16777216 else 0", 0), ("1 if 16777216 == 16777217 else 0", 0), ("16777217 max 16777216", 16777217), ("16777217 - 16777216", 1)] {
+            let got = std::panic::catch_unwind(|| parse_val::<i32, f32>(text).and_then(|e| e.eval(&[])));
+            let ok = matches!(&got, Ok(Ok(Val::Int(i))) if *i == want);
+            other_apps += 1;
+            if !ok { cases.push(C { g: "VU [] VNone None".to_string(), note: format!("[Val<i32,f32>] {text} = {:?}", got.as_ref().map(|r| r.as_ref().map(|v| format!("{v:?}")).map_err(|e| e.to_string())).unwrap_or(Ok("PANIC".into()))), family: "other-instantiations", ok: Some(false), onote: format!("expected Int({want})"), answer: "wrong".into() }); }
         }
     }
     println!("other_instantiations_applications={other_apps}");
@@ -370,6 +385,18 @@ pub fn run_c20(a: &Args) {
                 if bits != want { bad.push(format!("threads={nt} round={round} item={i}: {bits:x} vs sequential {want:x}")); } } }
             Err(_) => bad.push(format!("threads={nt} round={round}: a thread panicked")) } }
     } }
+    // COLD processes: the very first parses of a process happen concurrently (first use of the global name patterns), on
+    // texts with names from every range of the variable pattern; each child compares with hard-coded expectations
+    {
+        let exe = std::env::current_exe().unwrap();
+        let runs = if a.thorough { 24 } else { 8 };
+        for k in 0..runs {
+            match std::process::Command::new(&exe).arg("c20cold").arg(format!("{}", 2 + (k % 4) * 4)).output() {
+                Ok(o) => { histories += 1; if !o.status.success() { bad.push(format!("cold process {k}: concurrent first parses deviate from the expected result: {}", String::from_utf8_lossy(&o.stdout).lines().take(3).collect::<Vec<_>>().join(" | "))); } }
+                Err(e) => bad.push(format!("cold process {k}: could not be started: {e}")),
+            }
+        }
+    }
     // many concurrent parses of texts in which names of constants and operators are continued by non-ASCII letters
     // (`π` the constant beside `πr` the variable): every parse must give the variables and value of a sequential parse
     {
@@ -620,7 +647,9 @@ pub fn run_c18v(a: &Args) {
     // arithmetic inside the comparison operands, without parentheses (the comparison rules carry the VALUES of their operands)
     for t in ["x^2 if x - 1 > 0 else 3*x", "x*y if x - y < 0.2 else x/y", "x if 2*x - y >= x + 0.1 else y*x", "sin(x) if x * 2 > y / 2 else cos(x)", "x*x if y - x - 0.1 > 0 else 2*x",
         "x^2 if x + y > 1 else x", "x/y if x / y > 1.5 else y/x", "x*3 if x - 0.5 == y - 0.5 else x*5", "exp(x) if -x + 1 < y else ln(x+1)", "x^3 if 1 - x > y - 1 else x^2", "y*x if x * y - 0.3 != 0 else x",
-        "x*x if x ^ 2 > y else y*y", "2*x if x - 1 > 0 else (3*x if y - x > 0.2 else 5*x)"] { texts.push(t.to_string()); }
+        "x*x if x ^ 2 > y else y*y", "2*x if x - 1 > 0 else (3*x if y - x > 0.2 else 5*x)",
+        // a piecewise expression as direct operand of the tightest operators of the value table (^ / %)
+        "(x if x > 0 else -x)^3", "(3*x if x > 1 else x^2)^3", "x^(y if y > 0.5 else 2)", "(x if x > y else y)^y", "(x*x if x > 0.6 else x)/(y if y > 0.5 else 2)", "2^(x if x > 0.6 else 2*x)", "((x if x > 0.5 else 2*x)^2)^2"] { texts.push(t.to_string()); }
     for _ in 0..a.n { let ops = ["+", "-", "*", "/"]; let cmp = [">", "<", ">=", "<=", "!="][r.below(5)];
         let (l1, l2, r1) = (["x", "y", "0.4", "2"][r.below(4)], ["x", "y", "0.7", "1"][r.below(4)], ["x", "y", "0.5", "1.2"][r.below(4)]);
         let f1 = funs[r.below(funs.len())];
@@ -958,4 +987,27 @@ pub fn run_c15s(a: &Args) {
         json_str(&c.note), json_str(&c.note), c.ok, json_str(&c.onote), json_str(if c.ok { "yes" } else { "no" }))).collect();
     writeln!(f, "{}\n]}}", items.join(",\n")).unwrap();
     println!("mode=c15s cases={} oracle_failures={}", cases.len(), cases.iter().filter(|c| !c.ok).count());
+}
+
+/// child of mode c20: `nt` threads released together parse, as the FIRST parses of this process, texts with names from
+/// every range of the variable pattern; exit code 1 and one line per deviation from the hard-coded expectation
+pub fn run_c20cold(nt: usize) {
+    use exmex::prelude::*;
+    use exmex::DeepEx;
+    use std::sync::{Arc, Barrier};
+    let cases: Vec<(&'static str, Vec<&'static str>)> = vec![("Δt*2+Ω", vec!["Δt", "Ω"]), ("Ωmega-Δ*x_1", vec!["x_1", "Δ", "Ωmega"]), ("αβ+Γδ*_z9", vec!["_z9", "Γδ", "αβ"]), ("Zx+zX-A_Ω", vec!["A_Ω", "Zx", "zX"]), ("sinΦ+sin(Φ)", vec!["sinΦ", "Φ"]), ("x+1", vec!["x"])];
+    let cases = Arc::new(cases);
+    let barrier = Arc::new(Barrier::new(nt));
+    let handles: Vec<_> = (0..nt).map(|tid| { let (b, cs) = (barrier.clone(), cases.clone()); std::thread::spawn(move || {
+        b.wait();
+        let mut bad: Vec<String> = vec![];
+        for k in 0..cs.len() { let (text, want) = &cs[(k + tid) % cs.len()];
+            let got: Result<Vec<String>, String> = if (k + tid) % 2 == 0 { FlatEx::<f64>::parse(text).map(|f| f.var_names().to_vec()).map_err(|e| e.to_string()) } else { DeepEx::<f64>::parse(text).map(|f| f.var_names().to_vec()).map_err(|e| e.to_string()) };
+            let mut w: Vec<String> = want.iter().map(|s| s.to_string()).collect(); w.sort();
+            match got { Ok(v) => if v != w { bad.push(format!("{text:?}: variables {v:?}, expected {w:?}")); }, Err(e) => bad.push(format!("{text:?}: rejected ({e}), expected the variables {w:?}")) } }
+        bad }) }).collect();
+    let mut all: Vec<String> = vec![];
+    for h in handles { match h.join() { Ok(b) => all.extend(b), Err(_) => all.push("a thread panicked".into()) } }
+    for l in &all { println!("{l}"); }
+    std::process::exit(if all.is_empty() { 0 } else { 1 });
 }
